@@ -326,4 +326,133 @@ def run(ctx, res):
     if not dg.errors:
         ctx.require(res, "R10.7", n7, 8, "documented operand pairs with a degree")
     ctx.require(res, "R10.6", k6, 8, "decision atoms of distance() examined")
+    # R10.9 for two operands that are infinite point sets (Line, Plane) the result is never the distance between one stored
+    # representative of each (`distance(Point(a.sv), Point(b.sv))`): the support point of a Line / Plane is an arbitrary
+    # point of the set, sliding it along the object changes that value but not the distance of the sets
+    from ..astutil import expand_locals
+
+    def raw_rep(e, bound_):
+        """the operand whose stored point this expression is (`Point(a.sv)`, `a.p`, `a.sv`), else None"""
+        while isinstance(e, ast.Call) and ((isinstance(e.func, ast.Name) and e.func.id == "Point" and len(e.args) == 1)
+                                           or txt(e.func) in ("copy.deepcopy", "copy.copy")) and e.args:
+            e = e.args[0]
+        if isinstance(e, ast.Attribute) and isinstance(e.value, ast.Name) and e.value.id in fi.params[:2]:
+            tys_ = {str(t) for t in dict(bound_).get(e.value.id, ()) if not isinstance(t, tuple)}
+            for cn in tys_:
+                if cn in ("Line", "Plane") and ctx.transl.field_kind(cn, e.attr) == "P":
+                    return e.value.id
+        return None
+
+    n9 = 0
+    for ta, tb in DOCUMENTED:
+        if "Point" in (ta, tb):
+            continue
+        sm = eng.summary(fi, (S(ta), S(tb)))
+        bound = eng._bind(fi, (S(ta), S(tb)), {})
+        for r in [r for r in walk_local(fi.node) if isinstance(r, ast.Return) and id(r) in sm.reached and r.value is not None]:
+            n9 += 1
+            v = expand_locals(fi.node, r.value, fi.params)
+            while isinstance(v, ast.Call) and isinstance(v.func, ast.Name) and v.func.id in ("abs", "float") and len(v.args) == 1:
+                v = v.args[0]
+            pair = None
+            if isinstance(v, ast.Call) and isinstance(v.func, ast.Name) and v.func.id == "distance" and len(v.args) == 2:
+                pair = (v.args[0], v.args[1])
+            elif isinstance(v, ast.Call) and isinstance(v.func, ast.Attribute) and v.func.attr == "distance" and len(v.args) == 1:
+                pair = (v.func.value, v.args[0])
+            elif isinstance(v, ast.Call) and isinstance(v.func, ast.Attribute) and v.func.attr == "length" and not v.args:
+                d = v.func.value
+                if isinstance(d, ast.BinOp) and isinstance(d.op, ast.Sub):
+                    pair = (d.left, d.right)
+                elif isinstance(d, ast.Call) and isinstance(d.func, ast.Name) and d.func.id == "Vector" and len(d.args) == 2:
+                    pair = (d.args[0], d.args[1])
+            reps = tuple(raw_rep(x, bound) for x in pair) if pair else (None, None)
+            bad = None not in reps and reps[0] != reps[1]
+            res.ob("R10.9", fi.where(r), "distance(%s, %s): `%s`" % (ta, tb, txt(r.value)[:40]), not bad,
+                   "not the distance between two stored representatives" if not bad else "distance between the stored points of both operands")
+            if bad:
+                res.violation("R10.9", fi, r,
+                              "distance(%s, %s) returns `%s`: the distance between one stored point of each operand. A %s and a %s are "
+                              "infinite point sets and the stored support point is an arbitrary one of them (Line(P, Q) and Line(P + k(Q-P), Q) "
+                              "are the same line): the value changes with the representation and is not the distance of the sets"
+                              % (ta, tb, txt(r.value)[:60], ta, tb), construct="distance(%s, %s) between representatives" % (ta, tb))
+    ctx.require(res, "R10.9", n9, 3, "returns of the Line / Plane pairs")
+    # R10.10 the general form a x + b y + c z = d is read the same way by its writer and its readers: Plane(a, b, c, d) hands
+    # the row [a, b, c, d] to the solver, which reads the last column as the right-hand side; general_form() returns n.p as d
+    def signed(e, is_atom):
+        """+1 / -1 when e is the atom up to a sign (unary minus, multiplication / division by a numeric constant); else None"""
+        if is_atom(e):
+            return 1
+        if isinstance(e, ast.UnaryOp) and isinstance(e.op, ast.USub):
+            k = signed(e.operand, is_atom)
+            return -k if k is not None else None
+        if isinstance(e, ast.UnaryOp) and isinstance(e.op, ast.UAdd):
+            return signed(e.operand, is_atom)
+        if isinstance(e, ast.BinOp) and isinstance(e.op, (ast.Mult, ast.Div)):
+            for x_, y_ in ((e.left, e.right), (e.right, e.left)):
+                c_ = const_num(y_)
+                if c_ is not None and c_ != 0 and (isinstance(e.op, ast.Mult) or y_ is e.right):
+                    k = signed(x_, is_atom)
+                    return None if k is None else (k if c_ > 0 else -k)
+        return None
+
+    pl = repo.cls("Plane")
+    gf, rd = pl.lookup("_init_gf"), pl.lookup("general_form")
+    if gf is not None and len(gf.params) == 5:
+        d_name = gf.params[4]
+        rows_ = [c_.args[0].elts[0] for c_ in walk_local(gf.node) if isinstance(c_, ast.Call) and isinstance(c_.func, ast.Name)
+                 and c_.func.id == "solve" and len(c_.args) == 1 and isinstance(c_.args[0], ast.List) and len(c_.args[0].elts) == 1
+                 and isinstance(c_.args[0].elts[0], ast.List) and len(c_.args[0].elts[0].elts) == 4]
+        if len(rows_) == 1:
+            row_ = rows_[0]
+            sg = signed(row_.elts[3], lambda e: isinstance(e, ast.Name) and e.id == d_name)
+            coef = [signed(row_.elts[i_], lambda e, i_=i_: isinstance(e, ast.Name) and e.id == gf.params[1 + i_]) for i_ in range(3)]
+            if sg is not None and None not in coef and len(set(coef)) == 1:
+                ok = sg * coef[0] > 0
+                res.ob("R10.10", gf.where(row_), "Plane(a, b, c, d): the row given to the solver is a x + b y + c z = d", ok, "`%s`" % txt(row_))
+                if not ok:
+                    res.violation("R10.10", gf, row_,
+                                  "Plane(a, b, c, d) is documented as the plane a x + b y + c z = d, but the row `%s` handed to the solver "
+                                  "(last column = right-hand side) describes a x + b y + c z = -d: the stored point lies on the mirrored "
+                                  "plane, and every distance / intersection with a plane built from the general form refers to the wrong set"
+                                  % txt(row_), construct="Plane._init_gf row sign")
+            else:
+                res.note("%s the row `%s` of Plane._init_gf is not the parameters up to a sign; sign convention not evaluated" % (gf.where(row_), txt(row_)))
+        else:
+            res.note("%s Plane._init_gf does not hand one literal row to solve(); sign convention not evaluated" % gf.where())
+    if rd is not None:
+        for r_ in [r_ for r_ in walk_local(rd.node) if isinstance(r_, ast.Return) and isinstance(r_.value, ast.Tuple) and len(r_.value.elts) == 4]:
+            sn_ = rd.self_name
+
+            def np_(e):
+                t_ = txt(e)
+                return t_ in ("%s.n * %s.p.pv()" % (sn_, sn_), "%s.p.pv() * %s.n" % (sn_, sn_))
+            sg = signed(r_.value.elts[3], np_)
+            cf = [signed(r_.value.elts[i_], lambda e, i_=i_: txt(e) == "%s.n[%d]" % (sn_, i_)) for i_ in range(3)]
+            if sg is not None and None not in cf and len(set(cf)) == 1:
+                ok = sg * cf[0] > 0
+                res.ob("R10.10", rd.where(r_), "Plane.general_form(): d = n . p", ok, "`%s`" % txt(r_.value)[:70])
+                if not ok:
+                    res.violation("R10.10", rd, r_, "Plane.general_form() returns (a, b, c, d) with d = -(n . p) relative to its coefficients: "
+                                  "the equation a x + b y + c z = d it documents is that of the mirrored plane, and "
+                                  "Plane(*plane.general_form()) is not the plane", construct="Plane.general_form sign")
+    sol = None
+    try:
+        sol = repo.cls("Solution").lookup("__call__")
+    except Exception:
+        sol = None
+    if sol is not None:
+        for a_ in walk_local(sol.node):
+            # vals[var] = row[-1] / row[var]     and     s += row[-1]
+            if isinstance(a_, ast.Assign) and isinstance(a_.value, ast.BinOp) and isinstance(a_.value.op, ast.Div):
+                sg = signed(a_.value.left, lambda e: isinstance(e, ast.Subscript) and txt(e.slice) == "-1")
+                if sg is not None:
+                    res.ob("R10.10", sol.where(a_), "the solver reads the last column as the right-hand side", sg > 0, "`%s`" % txt(a_)[:60])
+                    if sg < 0:
+                        res.violation("R10.10", sol, a_, "the solver divides the NEGATED last column by the pivot (`%s`): rows are read as "
+                                      "a x + b y + c z + d = 0 here while Plane(a, b, c, d) and the intersection kernels write them as "
+                                      "... = d" % txt(a_)[:60], construct="Solution.__call__ rhs sign")
+    # R10.8 positions and directions are not confused in distance() and in the constructors of its operands (affine.py)
+    from ..affine import affine_scope, report_affine
+    k8 = report_affine(ctx, res, "R10.8", affine_scope(ctx, [fi], ("Point", "Line", "Plane")), "the distance")
+    ctx.require(res, "R10.8", k8, 10, "function contexts examined for position / direction mismatches")
     res.undecided_ob("the value equals the minimum Euclidean distance; zero exactly when intersection(a, b) is not None")
